@@ -143,7 +143,9 @@ class StreamSpec:
         if self.kind == 'rc' and not self.out_open and not self.in_open and not self.dead:
             self.dead, self.why = True, 'both-complete'
 
-    OWN_ENDINGS = ('error-out', 'cancel-out', 'both-complete', 'response-sent', 'completed-out')
+    # the endpoint's own terminal emissions, and the endings after which BOTH directions are complete as far as this
+    # endpoint has seen (its own direction ended with the request, the peer's with the response / COMPLETE it received)
+    OWN_ENDINGS = ('error-out', 'cancel-out', 'both-complete', 'response-sent', 'completed-out', 'response', 'completed')
 
     def out(self, fr):
         """a frame this endpoint emits on the stream; returns a reason if it is illegal.  What the peer's terminal frame
